@@ -99,12 +99,18 @@ def use_rnl(u):
         a, b = z3.Reals("rn_a rn_b")
         u.bg.append(z3.ForAll([a, b], z3.And(z3.Implies(z3.And(a >= 0, b > 0), RDIV(a, b) >= 0),
                                              z3.Implies(z3.And(a > 0, b > 0), RDIV(a, b) > 0),
-                                             z3.Implies(z3.And(a <= 0, b > 0), RDIV(a, b) <= 0)),
+                                             z3.Implies(z3.And(a <= 0, b > 0), RDIV(a, b) <= 0),
+                                             z3.Implies(z3.And(a > b, b > 0), RDIV(a, b) > 1),
+                                             z3.Implies(z3.And(a == b, b != 0), RDIV(a, b) == 1)),
                               qid="rdiv-sign", patterns=[RDIV(a, b)]))
         u.bg.append(z3.ForAll([a, b], z3.And(z3.Implies(z3.And(a >= 0, b >= 0), RMUL(a, b) >= 0),
                                              z3.Implies(z3.And(a > 0, b > 0), RMUL(a, b) > 0)),
                               qid="rmul-sign", patterns=[RMUL(a, b)]))
         u.bg.append(z3.ForAll([a], RMUL(a, a) >= 0, qid="rmul-square", patterns=[RMUL(a, a)]))
+        u.bg.append(z3.ForAll([a], z3.And(RMUL(a, 0) == 0, RMUL(0, a) == 0, RMUL(a, 1) == a, RMUL(1, a) == a),
+                              qid="rmul-01", patterns=[RMUL(a, 0), RMUL(0, a), RMUL(a, 1), RMUL(1, a)]))
+        u.bg.append(z3.ForAll([a], RDIV(a, 1) == a, qid="rdiv-1", patterns=[RDIV(a, 1)]))
+        u.bg.append(z3.ForAll([a, b], z3.Implies(b != 0, RMUL(RDIV(a, b), b) == a), qid="rdiv-cancel", patterns=[RMUL(RDIV(a, b), b)]))
     return RMUL, RDIV
 
 
@@ -167,6 +173,8 @@ def axioms_for(used):
         out.append(z3.And(PI > z3.RealVal("3.1415"), PI < z3.RealVal("3.1416")))
     if "rpow" in used:
         fa([x, y], z3.Implies(x > 0, rpow(x, y) > 0), [rpow(x, y)])
+    if "rpow-shrink" in used:     # opt-in: a base in (0,1) raised to an exponent > 1 gets strictly smaller
+        fa([x, y], z3.Implies(z3.And(x > 0, x < 1, y > 1), z3.And(rpow(x, y) < x, rpow(x, y) > 0)), [rpow(x, y)])
     if "rpow-arith" in used:      # opt-in (contract kw axioms=[...]): these multiply instances when many rpow terms occur
         fa([x], z3.Implies(x > 0, rpow(x, 0) == 1), [rpow(x, 0)])
         fa([x], rpow(x, 1) == x, [rpow(x, 1)])
@@ -182,6 +190,15 @@ def axioms_for(used):
         fa([x, y], z3.And(z3.Implies(x < y, rpow(2, x) < rpow(2, y)), z3.Implies(x <= y, rpow(2, x) <= rpow(2, y))),
            [z3.MultiPattern(rpow(2, x), rpow(2, y))])
         fa([x], rpow(2, x) == 2 * rpow(2, x - 1), [rpow(2, x)])
+        fa([k], I2R(k) == z3.ToReal(k), [I2R(k)])
+    if "rdiv-scale" in used:      # opt-in: (2x)/(2y) = x/y, (x+y)/y = x/y + 1, y/y = 1 for integer arguments (real division)
+        x2, y2 = z3.Ints("rs_x2 rs_y2")
+        a, b = k, j
+        fa([a, b, x2, y2], z3.Implies(z3.And(x2 == 2 * a, y2 == 2 * b, b > 0), RDIV(I2R(x2), I2R(y2)) == RDIV(I2R(a), I2R(b))),
+           [z3.MultiPattern(RDIV(I2R(x2), I2R(y2)), RDIV(I2R(a), I2R(b)))])
+        fa([a, b, x2], z3.Implies(z3.And(x2 == a + b, b > 0), RDIV(I2R(x2), I2R(b)) == RDIV(I2R(a), I2R(b)) + 1),
+           [z3.MultiPattern(RDIV(I2R(x2), I2R(b)), RDIV(I2R(a), I2R(b)))])
+    if "i2r-exact" in used:       # opt-in: the uninterpreted int->real conversion is the identity embedding
         fa([k], I2R(k) == z3.ToReal(k), [I2R(k)])
     if "pow2" in used:
         out.append(pow2(0) == 1)
